@@ -18,13 +18,42 @@ type Case struct {
 	Patterns []string `json:"patterns"` // registration order of router 1
 	Order2   []int    `json:"order2"`   // registration order of router 2 (indices into Patterns)
 	Paths    []string `json:"paths"`
+	// Refused are registrations that must be refused for their method list alone (reserved, unknown or repeated
+	// method) or as duplicates; they are attempted just before the At-th registration of either order and must
+	// leave resolution exactly as the reference computes it from the accepted patterns.
+	Refused []Refusal `json:"refused,omitempty"`
 }
+
+type Refusal struct {
+	At      int      `json:"at"`
+	Pattern string   `json:"pattern"`
+	Methods []string `json:"methods"`
+	Dup     bool     `json:"dup,omitempty"` // Pattern is registered (GET) at that moment or not at all: GET again is refused iff it is live
+}
+
+var badLists = [][]string{{"HEAD"}, {"OPTIONS"}, {"BOGUS"}, {"get"}, {"POST", "POST"}, {"POST", "PUT", "HEAD"}, {"PUT", "DELETE", "PUT"}, {""}}
 
 func gen(t *rapid.T) Case {
 	cfg := pat.GenCfg(t, false)
 	n := rapid.IntRange(1, rig.Up(14)).Draw(t, "npat")
-	pool := pat.GenPool(t, cfg, n)
+	nref := 0
+	if rapid.IntRange(0, 2).Draw(t, "withRefusals") == 0 {
+		nref = rapid.IntRange(1, 4).Draw(t, "nrefused")
+	}
+	pool := pat.GenPool(t, cfg, n+nref)
+	var extra []string
+	if len(pool) > n {
+		pool, extra = pool[:n], pool[n:]
+	}
 	c := Case{Icpt: cfg.IcptName, Patterns: pool}
+	for _, p := range extra {
+		c.Refused = append(c.Refused, Refusal{At: rapid.IntRange(0, len(pool)).Draw(t, "refAt"), Pattern: p,
+			Methods: rapid.SampledFrom(badLists).Draw(t, "refMethods")})
+	}
+	if nref > 0 && rapid.Bool().Draw(t, "dupToo") {
+		c.Refused = append(c.Refused, Refusal{At: rapid.IntRange(0, len(pool)).Draw(t, "dupAt"),
+			Pattern: rapid.SampledFrom(pool).Draw(t, "dupPattern"), Methods: []string{"GET"}, Dup: true})
+	}
 	c.Order2 = rapid.Permutation(seq(len(pool))).Draw(t, "order2")
 	var parsed []*pat.Pattern
 	for _, p := range pool {
@@ -47,18 +76,48 @@ func seq(n int) []int {
 
 // build registers the patterns in the given order and returns the router and
 // the accepted patterns.
-func build(env *rig.Env, icpt pat.Icpt, order []string) (*rig.Router, []*pat.Pattern, map[string]string) {
+func build(env *rig.Env, icpt pat.Icpt, order []string, refused []Refusal) (*rig.Router, []*pat.Pattern, map[string]string, error) {
 	r := env.NewRouter("r", rig.Opts{Icpt: icpt})
 	var acc []*pat.Pattern
 	ids := map[string]string{}
-	for _, p := range order {
+	refuse := func(at int) error {
+		for _, rf := range refused {
+			if rf.At != at {
+				continue
+			}
+			h := env.NewH()
+			_, panicked := rig.Try(func() { r.Handle(rf.Pattern, h, nil, rf.Methods...) })
+			if rf.Dup {
+				// the same pattern once more: refused iff it is live; otherwise it simply joins the table
+				if !panicked {
+					if ids[rf.Pattern] != "" {
+						return rig.Violf("duplicate-accepted", "Handle(%q, GET) was accepted although the route is live", rf.Pattern)
+					}
+					acc = append(acc, pat.MustParse(rf.Pattern, icpt))
+					ids[rf.Pattern] = h.ID
+				}
+				continue
+			}
+			if !panicked {
+				return rig.Violf("invalid-methods-accepted", "Handle(%q, %q) was accepted", rf.Pattern, rf.Methods)
+			}
+		}
+		return nil
+	}
+	for i, p := range append(append([]string{}, order...), "") {
+		if err := refuse(i); err != nil {
+			return nil, nil, nil, err
+		}
+		if i == len(order) {
+			break
+		}
 		h := env.NewH()
 		if _, panicked := rig.Try(func() { r.Handle(p, h, nil, "GET") }); !panicked {
 			acc = append(acc, pat.MustParse(p, icpt))
 			ids[p] = h.ID
 		}
 	}
-	return r, acc, ids
+	return r, acc, ids, nil
 }
 
 func shape(acc []*pat.Pattern) (classes []string) {
@@ -130,11 +189,17 @@ func check(c Case, st *rig.Stats) error {
 	}
 	var subs []sub
 	for i, order := range [][]string{c.Patterns, order2} {
-		r, acc, ids := build(env, icpt, order)
+		r, acc, ids, err := build(env, icpt, order, c.Refused)
+		if err != nil {
+			return err
+		}
 		subs = append(subs, sub{fmt.Sprintf("order%d", i+1), r, acc, ids})
 	}
 	nontriv := false
 	classes := shape(subs[0].acc)
+	if len(c.Refused) > 0 {
+		classes = append(classes, "with-refused-registrations")
+	}
 	for _, s := range subs {
 		rs := &ref.Resolver{Routes: s.acc}
 		for _, path := range c.Paths {
@@ -193,7 +258,7 @@ func srcs(ps []*pat.Pattern) []string {
 }
 
 var stats = rig.NewStats("C02",
-	"rapid draws an add-only table of 1-14 well-formed patterns (shared prefixes, bursts of >=5 literal siblings, competing parameter kinds, token-prefix names), two registration orders, and 1-6 paths derived from the patterns (values from the literal and value alphabets, one-byte mutations); every answer must lie in the admissible set of the tree-free reference resolver, 404 iff that set is empty. Non-trivial: the reference took at least one decision on some path (a literal branch failed and fell back, >=2 sibling groups of one kind, or a kind failed before a lower one was tried); distinct by hash of the case",
+	"rapid draws an add-only table of 1-14 well-formed patterns (shared prefixes, bursts of >=5 literal siblings, competing parameter kinds, token-prefix names), two registration orders, in a third of the cases interleaved with registrations that must be refused for their method list or as duplicates (and must leave no trace in resolution), and 1-6 paths derived from the patterns (values from the literal and value alphabets, one-byte mutations); every answer must lie in the admissible set of the tree-free reference resolver, 404 iff that set is empty. Non-trivial: the reference took at least one decision on some path (a literal branch failed and fell back, >=2 sibling groups of one kind, or a kind failed before a lower one was tried); distinct by hash of the case",
 	"regexp rules are one character class under a quantifier (no braces, alternations or lazy quantifiers)",
 	"where greedy and shortest regexp captures differ both are admissible (the statement says shortest, Go regexps are leftmost-first)")
 
